@@ -216,9 +216,16 @@ def run(ctx, rep):
             if s[0] == "=" and s[2][0] == "bin" and s[2][1] in ("AddWithOverflow", "Add") and "u64" in s[2][4]:
                 a, b_ = s[2][2], s[2][3]
                 la = op_local(a)
-                if la is not None and "file_pos" in ln.get(la, []) and op_place(b_):
+                # the running file position, identified by its behaviour (not its name): a u64 local that is re-assigned from
+                # `itself + <something derived from BlobLocation::data_length()>`
+                if la is not None and op_place(b_):
                     sl = flow.backward_slice(AF, op_place(b_))
-                    adv.append((bi, {"data_length"} if any(c_.endswith("BlobLocation::data_length") for c_ in sl["calls"]) else set()))
+                    if not any(c_.endswith("BlobLocation::data_length") for c_ in sl["calls"]):
+                        continue
+                    t_ = s[1][0]
+                    carried = any(s2[0] == "=" and s2[1] == [la] and s2[2][0] == "use" and op_place(s2[2][1]) and op_place(s2[2][1])[0] == t_ for blk2 in AF.blocks for s2 in blk2["s"])
+                    if carried:
+                        adv.append((bi, {"data_length"}))
     loops = [C.loop_blocks(AF, h, l) for (l, h) in C.back_edges(AF)]
     in_loop = [any(bi in bl for bl in loops) for bi, _ in adv]
     rep.check("C14.g", "file_pos-advances", len(adv) >= 1 and all(in_loop) and any(("length" in n or "data_length" in n) for _, n in adv), where=AF.loc(),
